@@ -638,6 +638,10 @@ func (e *SpecEnv) call(x *ast.CallExpr) *Val {
 			return e.fail("count() is only available in iterator invariants")
 		}
 		return &Val{T: mathInt, S: e.iterCount, Math: true}
+	case "chancap":
+		// the capacity the channel was made with (ghost attribute set at make(chan T, n))
+		e.fr.u.S.declareFun("chan_cap", []string{"Int"}, "Int")
+		return &Val{T: mathInt, S: app("chan_cap", e.fr.termOf(arg(0))), Math: true}
 	case "bfCount":
 		v := arg(0)
 		e.fr.u.declareBitfieldGhost(e.sortOfVal(v))
